@@ -236,7 +236,9 @@ class PythonRegex(regex.Regex):
         for i, symbol in enumerate(bracket_content):
             # We have a range
             if symbol == "-" and not self._should_escape_next_symbol(bracket_content_temp):
-                if not previous_is_valid_for_range or i == len(bracket_content) - 1:
+                if not previous_is_valid_for_range or \
+                        i == len(bracket_content) - 1 or \
+                        (i == 1 and bracket_content[0] == "^"):
                     # False alarm, no range
                     bracket_content_temp.append("-")
                     previous_is_valid_for_range = True
